@@ -20,24 +20,37 @@ struct rank_obs
 
 static thread_local rank_obs* obs = nullptr;
 
-template <typename T> static void note(T u)
+static thread_local long long skip_calls = 0; // evaluations of an earlier iteration (not observed)
+// returns the integrand's value: zero in the earlier iteration, so that grid and weights are left as they are and the
+// points of the observed iteration still reveal the stream position
+template <typename T> static T note(T u)
 {
+    if (skip_calls > 0) { --skip_calls; return T(); }
     if (obs->calls == 0) obs->first = vt::counter64_pos(u);
     ++obs->calls;
+    return T(1);
 }
 
 // kind 0 = plain, 1 = vegas, 2 = multi channel
 template <typename T>
-static void observe(int kind, std::size_t t, int w, unsigned long long seed, std::vector<rank_obs>& o, std::vector<long long>& end)
+static void observe(int kind, std::size_t t, int w, unsigned long long seed, std::vector<rank_obs>& o, std::vector<long long>& end,
+    int world_offset = 0, std::size_t first_iteration = 0)
 {
     o.assign((std::size_t) w, rank_obs());
     end.assign((std::size_t) w, -1);
     vt_mpi_run(w, seed, [&](MPI_Comm comm, int rank) {
         obs = &o[(std::size_t) rank];
         std::vector<std::size_t> calls{t};
+        // an earlier iteration with one more call: a per-rank extra call must not leak into the next iteration
+        skip_calls = 0;
+        if (first_iteration)
+        {
+            calls = std::vector<std::size_t>{first_iteration, t};
+            skip_calls = (long long) (first_iteration / (std::size_t) w + ((std::size_t) rank < first_iteration % (std::size_t) w ? 1 : 0));
+        }
         if (kind == 0)
         {
-            auto f = [](hep::mc_point<T> const& p) { note(p.point()[0]); return T(1); };
+            auto f = [](hep::mc_point<T> const& p) { return note(p.point()[0]); };
             auto chk = hep::make_plain_chkpt<T, eng>(eng());
             using C = decltype(chk);
             auto r = hep::mpi_plain(comm, hep::make_integrand<T>(f, 1), calls, chk,
@@ -46,7 +59,7 @@ static void observe(int kind, std::size_t t, int w, unsigned long long seed, std
         }
         else if (kind == 1)
         {
-            auto f = [](hep::vegas_point<T> const& p) { note(p.point()[0]); return T(1); };
+            auto f = [](hep::vegas_point<T> const& p) { return note(p.point()[0]); };
             auto chk = hep::make_vegas_chkpt<T, eng>(4, T(1.5), eng());
             using C = decltype(chk);
             auto r = hep::mpi_vegas(comm, hep::make_integrand<T>(f, 1), calls, chk,
@@ -55,7 +68,7 @@ static void observe(int kind, std::size_t t, int w, unsigned long long seed, std
         }
         else
         {
-            auto f = [](hep::multi_channel_point<T> const& p) { note(p.point()[0]); return T(1); };
+            auto f = [](hep::multi_channel_point<T> const& p) { return note(p.point()[0]); };
             auto map = [](std::size_t, std::vector<T> const& r, std::vector<T>& c, std::vector<std::size_t> const&,
                 std::vector<T>& d, hep::multi_channel_map) { c[0] = r[0]; d[0] = T(1); d[1] = T(1); return T(1); };
             auto chk = hep::make_multi_channel_chkpt<T, eng>(T(), T(0.25), eng());
@@ -64,17 +77,18 @@ static void observe(int kind, std::size_t t, int w, unsigned long long seed, std
                 hep::mpi_callback<C>(hep::callback_mode::silent));
             end[(std::size_t) rank] = (long long) r.generator().pos();
         }
-    }, false);
+    }, false, world_offset);
 }
 
-static void emit_small(int kind, std::size_t t, int w, unsigned long long seed)
+static void emit_small(int kind, std::size_t t, int w, unsigned long long seed, int world_offset = 0, std::size_t first_iteration = 0)
 {
     std::vector<rank_obs> o;
     std::vector<long long> end;
-    if (kind == 0) observe<double>(0, t, w, seed, o, end);
-    else if (kind == 1) observe<float>(1, t, w, seed, o, end);
-    else observe<long double>(2, t, w, seed, o, end);
+    if (kind == 0) observe<double>(0, t, w, seed, o, end, world_offset, first_iteration);
+    else if (kind == 1) observe<float>(1, t, w, seed, o, end, world_offset, first_iteration);
+    else observe<long double>(2, t, w, seed, o, end, world_offset, first_iteration);
     long long usage = kind == 2 ? 2 : 1; // canonical numbers per call (one raw draw each with this engine)
+    long long base = (long long) first_iteration * usage; // stream position at which the observed iteration starts
     for (int r = 0; r != w; ++r)
     {
         long long sub = o[(std::size_t) r].calls;
@@ -83,7 +97,8 @@ static void emit_small(int kind, std::size_t t, int w, unsigned long long seed)
         long long first = o[(std::size_t) r].first;
         vt::ev("Share").s("src", kind == 0 ? "mpi_plain" : kind == 1 ? "mpi_vegas" : "mpi_multi_channel")
             .i("t", (long long) t).i("w", w).i("r", r).i("before", before).i("sub", sub).i("after", after)
-            .i("first", first < 0 ? -1 : first).i("usage", usage).i("end", end[(std::size_t) r]).emit();
+            .i("first", first < 0 ? -1 : first - base).i("usage", usage).i("end", end[(std::size_t) r] - base)
+            .i("suboff", world_offset).i("prev", (long long) first_iteration).emit();
     }
 }
 
@@ -108,6 +123,13 @@ int main(int argc, char** argv)
         {
             emit_small(0, t, w, seed + t);
             if (w <= 9 && t <= 20) { emit_small(1, t, w, seed + t); emit_small(2, t, w, seed + t); }
+            if (w >= 2 && w <= 6 && t <= 12)
+            {
+                // the communicator is a sub-communicator of a larger world (ranks shifted by 1 or w)
+                emit_small((int) (t % 3), t, w, seed + t, t % 2 ? 1 : w);
+                // preceded by an iteration with t + 1 calls (different remainder)
+                emit_small((int) ((t + 1) % 3), t, w, seed + t, 0, t + 1);
+            }
         }
     // sampled large values: helper functions only (sub taken as the difference of consecutive befores, which
     // is what the integrators' inline expression must agree with - checked above on the small table)
